@@ -209,8 +209,8 @@ let range_of_loc = function
   | S.LStartLength (b, l, _) -> S.RStartLength (b, l)
   | S.LDefault _ -> S.ROffsetPair (n_of_int 1, n_of_int 2)
 
-let rand_lp r asz =
-  match rand_int r 12 with
+let rand_lp ?(tame = false) r asz =
+  match rand_int r (if tame then 9 else 12) with
   | 0 | 1 | 2 -> LpNone
   | 3 | 4 -> LpAddr (S.AConst N0)
   | 5 | 6 | 7 | 8 -> LpAddr (S.AConst (n_ (Z.succ (rand_fit r asz))))
@@ -220,14 +220,16 @@ let rand_lp r asz =
   | _ -> LpAddr (S.ASym (N0, cz_of_int (rand_int r 3)))
 let has_base = function LpNone -> false | LpAddr (S.AConst N0) -> false | _ -> true
 
-let rand_unit r ~nr ~nl =
-  let version = match rand_int r 16 with 0 -> 1 | 1 -> 6 | 2 -> 0 | x -> 2 + (x land 3) in
-  let asz = match rand_int r 16 with 0 -> 1 | 1 -> 2 | 2 -> 3 | 3 -> 0 | 4 -> 16 | 5 -> 9 | x -> if x land 1 = 0 then 4 else 8 in
+let rand_unit ?(tame = false) r ~nr ~nl =
+  (* tame: a unit that is meant to be written successfully (valid version, address size, low_pc, rule-obeying lists) *)
+  let version = if tame then 2 + rand_int r 4 else match rand_int r 16 with 0 -> 1 | 1 -> 6 | 2 -> 0 | x -> 2 + (x land 3) in
+  let asz = if tame then pick r [| 4; 8; 4; 8; 4; 8; 1; 2 |] else
+    match rand_int r 16 with 0 -> 1 | 1 -> 2 | 2 -> 3 | 3 -> 0 | 4 -> 16 | 5 -> 9 | x -> if x land 1 = 0 then 4 else 8 in
   let fmt64 = rand_int r 3 = 0 in
-  let lp = rand_lp r asz in
+  let lp = rand_lp ~tame r asz in
   let hb = has_base lp in
   let mk loc =
-    let wild = rand_int r 3 = 0 in
+    let wild = (not tame) && rand_int r 3 = 0 in
     gen_list r ~loc ~version ~asz ~hb ~wild in
   let dup prev = if prev <> [] && rand_int r 3 = 0 then Some (pick r (Array.of_list prev)) else None in
   let rec lists loc k acc = if k = 0 then List.rev acc else
@@ -330,7 +332,8 @@ let () =
       small_domain ~loc:false (fun be us -> run_case "c16.rng" emit be us);
       let r = mk_rng seed in
       for _ = 1 to n do
-        let u = rand_unit r ~nr:(1 + rand_int r 3) ~nl:0 in
+        let tame = rand_int r 5 < 3 in
+        let u = rand_unit ~tame r ~nr:(1 + rand_int r 3) ~nl:0 in
         run_case "c16.rng" emit (rand_bool r) [ u ]
       done);
   register "c16.loc" ~doc:"location lists through write::Unit (DW_AT_location), v2-5: section bytes, offsets, read back through attr_locations"
@@ -345,7 +348,8 @@ let () =
           run_case "c16.loc" emit false [ u ]) [ 0; 1; 127; 128; 16383; 16384; 65535; 65536 ]) [ 4; 5 ];
       let r = mk_rng seed in
       for _ = 1 to n do
-        let u = rand_unit r ~nr:0 ~nl:(1 + rand_int r 3) in
+        let tame = rand_int r 5 < 3 in
+        let u = rand_unit ~tame r ~nr:0 ~nl:(1 + rand_int r 3) in
         run_case "c16.loc" emit (rand_bool r) [ u ]
       done);
   register "c16.unit" ~doc:"1-3 units with range and location lists incl. duplicates, mixed versions: sections accumulate, equal lists share offsets"
@@ -354,7 +358,8 @@ let () =
       let r = mk_rng (seed + 77) in
       for _ = 1 to n do
         let nu = match rand_int r 4 with 0 -> 2 | 1 -> 3 | _ -> 1 in
-        let us = List.init nu (fun _ -> rand_unit r ~nr:(rand_int r 4) ~nl:(rand_int r 4)) in
+        let tame = rand_int r 10 < 7 in
+        let us = List.init nu (fun _ -> rand_unit ~tame r ~nr:(rand_int r 4) ~nl:(rand_int r 4)) in
         run_case "c16.unit" emit (rand_bool r) us
       done);
   register "c16.rej" ~doc:"lists the pre-v5 encoding must reject (theorem rejects_v4): plain prefix, then an empty range / offset pair without base / address pair with base / default location; expected = err (ListWrSpec.rejected)"
